@@ -39,7 +39,8 @@ def run(ctx):
             argv = ['-r', '-T', '--driver', driver, '--workers', str(rng.choice([1, 3, 8])), '--block-size', str(rng.choice([7 if size < 1000 else 4096, 4096, 1 << 20]))]
             argv += [f for f, on in (('--ownership', flags['ownership']), ('--no-perms', flags['no_perms']), ('--no-timestamps', flags['no_timestamps']), ('--fsync', flags['fsync'])) if on]
             argv += ['S', 'D']
-            r = scen.run_xcp(root, argv, umask=umask, timeout=60)
+            plan = [f'sched {ctx.seed * 17 + i} {rng.choice(["pct", "delay"])} {rng.randint(1, 3)}'] if i % 3 == 1 else None   # the last block may finish on any worker
+            r = scen.run_xcp(root, argv, umask=umask, timeout=60, plan=plan)
             for k, v in flags.items():
                 if v: ctx.count('flag.' + k)
             ctx.count(f'prior.{prior}'); ctx.count(f'driver.{driver}'); ctx.count(f'exit.{r.cls}')
